@@ -95,7 +95,7 @@ def lines_for(log, loose, result):
                 break
             # joins performed while this end tag was processed
             joins, j = [], i + 1
-            while j < len(run) and run[j]["k"] in ("join", "date", "looks", "decode", "resolve", "sanitize", "b64"):
+            while j < len(run) and run[j]["k"] in ("join", "date", "looks", "decode", "resolve", "sanitize", "b64", "email"):
                 kk = run[j]["k"]
                 if kk == "join":
                     joins.append("J:%s|%s" % (enc(run[j]["uri"]), enc(run[j]["result"])))
@@ -105,6 +105,8 @@ def lines_for(log, loose, result):
                     joins.append("%s:%s" % ({"decode": "E", "resolve": "R", "sanitize": "Z"}[kk], enc(run[j]["result"])))
                 elif kk == "b64":
                     joins.append("B:" + ("-" if run[j]["result"] is None else enc(run[j]["result"])))
+                elif kk == "email":
+                    joins.append("M:" + ("-" if run[j]["result"] is None else enc(run[j]["result"])))
                 else:
                     # what the real _parse_date answered for this element's text (M-date's subject; a parameter here)
                     joins.append("D:" + (",".join(str(x) for x in run[j]["result"]) if run[j]["result"] else "-"))
@@ -186,7 +188,24 @@ def content_doc(rng):
             attrs += ' %s="%s"' % (an, rng.choice(["News", "", "http://example.org/cats", "Tech &amp; Co", "d"]))
         return "<%s%s>%s</%s>" % (name, attrs, rng.choice(["News", "News", " Tech ", "", "  ", "a, b", "Tom &amp; Jerry", "x<!-- c -->y"]), name)
 
+    def au(atom):
+        """stage 7: authors and contributors -- RSS-style text (with and without an e-mail address, in every bracket arrangement), Atom-style children
+        (name / email / uri in any order, some missing), several per context, managingEditor / dc:creator, stray name / email outside an author"""
+        texts = ["Jane Doe", "jane@example.org (Jane Doe)", "Jane Doe <jane@example.org>", "jane@example.org", "(Jane) jane@example.org", "", "  ", "Doe, J. &lt;j@x.example&gt;",
+                 "no address here", "a@b.example?subject=hello Jane", "Jane (jane at example.org)"]
+        r = rng.random()
+        if r < 0.4:
+            return "<%s>%s</%s>" % ((rng.choice(["author", "author", "dc:creator"]),) * 1 + (rng.choice(texts),) + (None,))[:3] if False else \
+                (lambda n, t: "<%s>%s</%s>" % (n, t, n))(rng.choice(["author", "author", "dc:creator", "managingEditor"] if not atom else ["dc:creator", "author"]), rng.choice(texts))
+        outer = rng.choice(["author", "author", "contributor"])
+        kids = []
+        for k in rng.sample(["name", "email", "uri", "url", "homepage"], rng.randint(0, 3)):
+            kids.append("<%s>%s</%s>" % (k, rng.choice(["Jane", "jane@example.org", "http://example.org/jane", "rel/jane", "", " J "]), k))
+        return "<%s>%s%s</%s>" % (outer, rng.choice(["", "", "text "]), "".join(kids), outer)
+
     def el(name, atom):
+        if name == "@au":
+            return au(atom) if rng.random() < 0.85 else rng.choice(["<name>stray</name>", "<email>s@x.example</email>", "<uri>stray/u</uri>"])
         if name == "@lg":
             return lg(atom)
         if name == "@ce":
@@ -214,8 +233,8 @@ def content_doc(rng):
     # stage 3: summary / description / content in every order (a second description becomes content; content before description; content:encoded)
     entry_names = (["title", "rights", "dc:rights", "dc:title", "itunes:subtitle", "x:other", "summary", "content", "summary", "itunes:summary", "content", "media:description", "abstract"] if atom else
                    ["title", "dc:rights", "dc:title", "itunes:subtitle", "copyright", "x:other", "description", "cenc:encoded", "description", "itunes:summary", "fullitem", "dc:description", "content", "abstract"])
-    feed_names = feed_names + ["@lg", "@lg", "@ce"]
-    entry_names = entry_names + ["@lg", "@lg", "@lg", "@lg", "@ce", "@ce", "@ce", "@ce"]
+    feed_names = feed_names + ["@lg", "@lg", "@ce", "@au", "@au"]
+    entry_names = entry_names + ["@lg", "@lg", "@lg", "@lg", "@ce", "@ce", "@ce", "@ce", "@au", "@au", "@au", "@au"]
     fmeta = "".join(el(n, atom) for n in rng.sample(feed_names, rng.randint(1, 4)))
     entries = ""
     for i in range(rng.randint(0, 3)):
